@@ -37,11 +37,11 @@ StructClause(e) ==
   ELSE IF \E b \in N : e.ro[b] = 1 /\ (Vis(e, b) # {} \/ \E c \in N : b \in Vis(e, c))
        THEN <<"RomWindowImmutable", CHOOSE b \in N : e.ro[b] = 1 /\ (Vis(e, b) # {} \/ \E c \in N : b \in Vis(e, c))>>
   \* "no other location changes" / "every address is first reduced to its canonical form (24-bit wrap, documented RAM mirror
-  \* window)": two cells of the external space may share a class only if their documented canonical addresses coincide
+  \* window)": two cells of the external space (or two of the internal memory) may share a class only if their documented canonical addresses coincide
   \* (e.canon, computed by the harness from the configuration: 24-bit wrap, and the 32 KiB mirror of 0x80000-0xBFFFF where the
   \* configuration switches it on) - a coherent but undocumented alias (a window folded modulo its size, say) is still an alias
-  ELSE IF \E b, c \in N : b # c /\ c \in Vis(e, b) /\ e.kind[b] = "ext" /\ e.kind[c] = "ext" /\ e.canon[b] # e.canon[c]
-       THEN <<"UndocumentedAlias", CHOOSE b \in N : \E c \in N : b # c /\ c \in Vis(e, b) /\ e.kind[b] = "ext" /\ e.kind[c] = "ext" /\ e.canon[b] # e.canon[c]>>
+  ELSE IF \E b, c \in N : b # c /\ c \in Vis(e, b) /\ e.kind[b] = e.kind[c] /\ e.kind[b] \in {"ext", "int"} /\ e.canon[b] # e.canon[c]
+       THEN <<"UndocumentedAlias", CHOOSE b \in N : \E c \in N : b # c /\ c \in Vis(e, b) /\ e.kind[b] = e.kind[c] /\ e.kind[b] \in {"ext", "int"} /\ e.canon[b] # e.canon[c]>>
   ELSE <<"ok", 0>>
 
 TNext ==
